@@ -138,9 +138,30 @@ func extractBlockMgr() {
 	chs := funcDecl(f, "blockManager", "checkHeaderSanity")
 	usesReorgList := false
 	if chs != nil {
-		if i := findIf(chs.Body, "reorgAttempt"); i != nil && strings.Contains(src(i.Body), "hList = b.reorgList") {
-			usesReorgList = strings.Contains(src(chs.Body), "hList := b.headerList")
+		// which list reaches newLightHeaderCtx's header-list argument when the flag (second
+		// parameter of checkHeaderSanity) is true / false - whether it is selected by an
+		// `if`, a switch or a helper method
+		flag := ""
+		n := 0
+		for _, fl := range chs.Type.Params.List {
+			for _, nm := range fl.Names {
+				if n == 1 {
+					flag = nm.Name
+				}
+				n++
+			}
 		}
+		ast.Inspect(chs.Body, func(nd ast.Node) bool {
+			if ce, ok := nd.(*ast.CallExpr); ok && src(ce.Fun) == "newLightHeaderCtx" && len(ce.Args) == 4 && flag != "" {
+				recv := "b"
+				if chs.Recv != nil && len(chs.Recv.List) == 1 && len(chs.Recv.List[0].Names) == 1 {
+					recv = chs.Recv.List[0].Names[0].Name
+				}
+				usesReorgList = valueUnder(f, chs, ce.Args[3], flag, true, 0) == recv+".reorgList" &&
+					valueUnder(f, chs, ce.Args[3], flag, false, 0) == recv+".headerList"
+			}
+			return true
+		})
 	}
 	l.def("reorgArmUsesReorgList", "Bool", lbool(reorgSanity && usesReorgList),
 		"the reorg arm calls checkHeaderSanity(…, true, …) and that selects b.reorgList as the context")
